@@ -257,7 +257,7 @@ def verify_function(c, mutate=None, canary=False):
     for p, t in c.params.items():
         if p not in env:
             env[p] = api.mk(t, p, inv)       # ghost parameters
-    for g_ in ("nwrites", "nfiltered", "nstat", "rc_total", "nprinted", "ncalls"):
+    for g_ in ("nwrites", "nfiltered", "nstat", "rc_total", "nprinted", "ncalls", "nconsumed"):
         env["$" + g_] = fresh("ghost." + g_, I)
         inv.append(env["$" + g_] >= 0)
     for g_ in ("w_writer", "w_rec1", "w_rec2", "tally", "tally_key"):
